@@ -29,6 +29,10 @@ NAMESETS = {
     "sympyns4": ["pi", "re", "im"],
     "underscore": ["lambda_", "_t", "theta_10"],
     "same_base": ["x", "x[0]", "x[1]"],
+    # identifiers that also read as numbers or constants in some parser
+    "numberlike": ["nan", "inf", "e"],
+    "numberlike2": ["Infinity", "j", "NaN"],
+    "numberlike3": ["oo", "zoo", "true"],
 }
 EXPR_SHAPES = ["a", "2*a", "a+b", "a*b", "a/2", "a**2", "0.5*a", "-a+0.25", "a**2+b", "a-b", "3"]
 
@@ -351,10 +355,14 @@ def instances(tier, seed):
             nctl = sum(1 for m in mods if m == "c1")
             add([[base, [], list(mods), list(range(1 + nctl))], ["RX", [_prm("a", "plain")], [], [0]]], label=f"{base}|{'|'.join(mods)} (const) + RX(theta)", skip_unitary=("exp" in mods and "pow(0.5)" in mods))
     # numbers as parameters (ground): exactness of Python numbers
-    nums = [0.1, 1 / 3, 1e-7, 1e20, -2.5e-3, 3.141592653589793, 5, 0, -7, 0.30000000000000004, 123456.789]
+    nums = [0.1, 1 / 3, 1e-7, 1e20, -2.5e-3, 3.141592653589793, 5, 0, -7, 0.30000000000000004, 123456.789, -0.0]
     for i in range(0, len(nums), 3):
         ch = nums[i : i + 3] + [0.5] * (3 - len(nums[i : i + 3]))
         add([["U3", ch, [], [0]], ["RZ", [ch[0]], ["c1"], [1, 0]], ["U_custom", [ch[1], ch[2]], ["dagger"], [2]]], label=f"numbers {ch}")
+    # integers that are not doubles: exact as parameters; their matrices are not compared (an angle of 2^53+1 reaches the
+    # trigonometric functions through a float conversion on one evaluation path and exactly on the other)
+    big = [2**53 + 1, 10**23, -(2**64) - 3]
+    add([["U3", big, [], [0]], ["RZ", [big[0]], ["c1"], [1, 0]]], label=f"numbers {big} (integers beyond 2^53, structure only)", skip_unitary=True)
     # structure: empty circuits, idle qubits, several custom gates, mixed
     add([], n=None, label="empty circuit")
     add([], n=3, label="empty circuit with 3 idle qubits")
